@@ -452,6 +452,51 @@ func ShapesUpTo(maxN int) [][]*Tree {
 	return out
 }
 
+// LongTrees builds size-parameterised trees with n leaves (atoms cycle through 0..k-1): right and
+// left chains of one operator, balanced trees, alternating right and left nests.
+func LongTrees(n, k int) map[string]*Tree {
+	leaf := func(i int) *Tree { return &Tree{Atom: i % k, n: 1} }
+	node := func(op byte, l, r *Tree) *Tree { return &Tree{Op: op, L: l, R: r, n: l.Leaves() + r.Leaves()} }
+	out := map[string]*Tree{}
+	for _, op := range []byte{'a', 'o'} {
+		name := map[byte]string{'a': "and", 'o': "or"}[op]
+		r := leaf(n - 1)
+		for i := n - 2; i >= 0; i-- {
+			r = node(op, leaf(i), r)
+		}
+		out["right-chain-"+name] = r
+		l := leaf(0)
+		for i := 1; i < n; i++ {
+			l = node(op, l, leaf(i))
+		}
+		out["left-chain-"+name] = l
+		var bal func(lo, hi int) *Tree
+		bal = func(lo, hi int) *Tree {
+			if hi-lo == 1 {
+				return leaf(lo)
+			}
+			m := (lo + hi) / 2
+			return node(op, bal(lo, m), bal(m, hi))
+		}
+		out["balanced-"+name] = bal(0, n)
+	}
+	ops := []byte{'a', 'o'}
+	r := leaf(n - 1)
+	for i := n - 2; i >= 0; i-- {
+		r = node(ops[i%2], leaf(i), r)
+	}
+	out["right-nest-alternating"] = r
+	l := leaf(0)
+	for i := 1; i < n; i++ {
+		l = node(ops[i%2], l, leaf(i))
+	}
+	out["left-nest-alternating"] = l
+	return out
+}
+
+var longSizes = []int{9, 10, 12, 16, 17, 31, 32, 33, 34, 35, 48, 63, 64, 65, 66, 100, 128, 129}
+var longSizesThorough = []int{200, 256, 257, 512, 513, 1000, 1024, 1025}
+
 // distinctAtoms: a pool of pairwise unrelated single terms for all-distinct leaf labellings.
 var distinctAtoms = []string{"MIT", "ISC", "Zlib", "0BSD", "X11", "NTP", "W3C", "Vim", "LicenseRef-a", "DocumentRef-d:LicenseRef-b", "TCL", "Zed"}
 
